@@ -280,8 +280,11 @@ static ares_bool_t fake_addrinfo(const char *name, unsigned short port,
       if (result) {
         status = ares_append_ai_node(AF_INET, port, 0, &addr4, &ai->nodes);
         if (status != ARES_SUCCESS) {
-          callback(arg, (int)status, 0, NULL); /* LCOV_EXCL_LINE: OutOfMemory */
-          return ARES_TRUE;                    /* LCOV_EXCL_LINE: OutOfMemory */
+          /* LCOV_EXCL_START: OutOfMemory */
+          ares_freeaddrinfo(ai);
+          callback(arg, (int)status, 0, NULL);
+          return ARES_TRUE;
+          /* LCOV_EXCL_STOP */
         }
       }
     }
@@ -294,8 +297,11 @@ static ares_bool_t fake_addrinfo(const char *name, unsigned short port,
     if (result) {
       status = ares_append_ai_node(AF_INET6, port, 0, &addr6, &ai->nodes);
       if (status != ARES_SUCCESS) {
-        callback(arg, (int)status, 0, NULL); /* LCOV_EXCL_LINE: OutOfMemory */
-        return ARES_TRUE;                    /* LCOV_EXCL_LINE: OutOfMemory */
+        /* LCOV_EXCL_START: OutOfMemory */
+        ares_freeaddrinfo(ai);
+        callback(arg, (int)status, 0, NULL);
+        return ARES_TRUE;
+        /* LCOV_EXCL_STOP */
       }
     }
   }
